@@ -54,6 +54,7 @@ func init() {
 				{Name: "HarnessC05Shared", Bounds: "one long-lived validator shared by two goroutines; outcomes equal solo; race monitor", PreemptBound: 2},
 				{Name: "HarnessC15Concurrent", Bounds: "regexp cache: 2 goroutines, 3 calls, 4 patterns", PreemptBound: 2},
 				{Name: "HarnessC03RequiredDefs", Bounds: "sequential ownership: no use of a result after the merge that redeemed it (use-after-put monitor)"},
+				{Name: "HarnessC05SpecParallel", Bounds: "two goroutines run the (stubbed) whole specification validation on two distinct documents; each outcome equals its solo outcome; race monitor on every heap cell and package-level variable; preemption bound 1 (quick) / 2 (thorough)", PreemptBound: 1, MaxPaths: 400000},
 				{Name: "HarnessC04History", Bounds: "sequential ownership reduction: use-after-put / double-put monitors over the mixed family through the recycling one-shot entry point (LIFO pools)"},
 			},
 			Assumptions: []string{"goroutines are cooperative threads switched only at visible operations (mutex, atomic, pool, package-level variable, go, exit): sound for race detection because a first race is always exposed by a schedule that switches only at synchronisation operations", "2 goroutines; 4..64 goroutines rest on the reduction to sequential ownership (C04/C08/C12 monitors), not on exploration"},
